@@ -77,8 +77,18 @@ def _initialize_cylces(topology, cycles, tolerance):
             if len(cycles) > 1:
                 raise IOError("More than one cycle is not allowed.")
             molecule.dfs=True
-            nodes = (list(molecule.search_tree.edges)[0][0],
-                     list(molecule.search_tree.edges)[-1][1])
+            # the ring is closed by the one edge of the molecule that is
+            # not part of the growth tree; residues outside the ring (side
+            # chains, ligands) must not be taken for its end
+            tree_edges = {frozenset(edge) for edge in molecule.search_tree.edges}
+            closing = [edge for edge in molecule.edges
+                       if frozenset(edge) not in tree_edges]
+            if closing:
+                root = list(molecule.search_tree.edges)[0][0]
+                nodes = tuple(sorted(closing[0], key=lambda node: node != root))
+            else:
+                nodes = (list(molecule.search_tree.edges)[0][0],
+                         list(molecule.search_tree.edges)[-1][1])
             topology.distance_restraints[(mol_name, mol_idx)][nodes] = (0.0, tolerance)
 
 def _check_molecules(molecules):
